@@ -264,7 +264,7 @@ def check(col, prog, tier, profile, fixture=None):
 
     # ---------------- V4
     for b in (wr, wc):
-        I = util.analyse(b)
+        I = A(b)
         for st in I.final_states:
             evs = st.event_list()
             fidx = [k for k, e in enumerate(evs) if _is(e, fl)]
@@ -358,6 +358,8 @@ def check(col, prog, tier, profile, fixture=None):
             for st in backs:
                 evs = st.event_list()
                 li = max(k for k, e in enumerate(evs) if e.kind == "loop")
+                if _slice_iter_exhausted(st, evs[:li]):
+                    continue  # `if let Some(first) = it.next()` failed: a slice iterator is fused, the loop over it is empty
                 pre_set.add(tuple(emis(evs[:li])))
                 it = emis(evs[li:])
                 first = None
@@ -380,6 +382,25 @@ def check(col, prog, tier, profile, fixture=None):
                 col.ok("V8" + sfx, b.loc(), key, "W (S W)*: %s" % ("index 0 without separator, every other element preceded by one ' '" if form_a else "first element, then ' ' + element for the rest"))
             else:
                 col.violation("V8" + sfx, key, b.loc(), "sequence writer must emit one ' ' before every element except the first (and none after the last)")
+
+
+def _slice_iter_exhausted(st, pre):
+    """before the loop, next() on a std::slice::Iter local returned None and the loop runs over that same
+    iterator (moved through into_iter): slice iterators are fused, so no round of the loop is feasible"""
+    for e in pre:
+        if not (e.kind == "call" and e.extra.get("name") == "next" and "slice::Iter<" in str(e.callee)):
+            continue
+        a = e.args[0]
+        if not (a[0] == "ref" and a[1][0] == "local"):
+            continue
+        d = ("discr", e.res)
+        none = any((f[0] == "eq" and f[1] == d and f[2] == 0) or (f[0] == "ne" and f[1] == d and f[2] == 1) for f in st.facts)
+        if not none:
+            continue
+        for e2 in pre:
+            if e2.kind == "call" and e2.extra.get("name") == "into_iter" and e2.args and e2.args[0][0] == "out" and e2.args[0][2] == a[1][1] and e2.args[0][1] == e.extra.get("uid"):
+                return True
+    return False
 
 
 def _assoc_value(crate, t):
